@@ -160,6 +160,8 @@ def run(ck, facts, tier):
                  detail=paths.fmt_paths(got)[:600], sample="days<0 ? roll(date - Days(|days|)) : roll(date + Days(days))")
     except Unsupported as e:
         ck.fail(r5, "add_days", "rule could not be established (%s)" % e, where("add_days"))
+    from rules import pywrap
+    pywrap.run_calendar_wrappers(ck, facts)
     # the counting loops step with C04's roll primitives and settle with its settlement searches: their rules are necessary conditions here too
     from rules import c04
     nd, tb = list(ck.not_decided), list(ck.trusted)
